@@ -47,11 +47,14 @@ def _get_storage_file(context, command_set, path):
     file_name = '{}.dcm'.format(command_set.AffectedSOPInstanceUID)
     full_name = os.path.join(path, file_name)
     i = 0
-    while os.path.exists(full_name):
-        i += 1
-        full_name = '{}_{}'.format(full_name, i)
-
-    ds = open(os.path.join(path, file_name), 'w+b')
+    while True:
+        try:
+            # exclusive creation: never truncates a file that is already stored
+            ds = open(full_name, 'x+b')
+            break
+        except FileExistsError:
+            i += 1
+            full_name = '{}_{}'.format(full_name, i)
     start = ds.tell()
     try:
         applicationentity.write_meta(ds, command_set, context.supported_ts)
